@@ -8,6 +8,7 @@ method of the container and the module-level function of measures/degree.py resp
 * quick:    every Hypergraph on the node set {0..n-1}, n <= 4, with <= 4 distinct hyperedges of size 1..4, and n = 5
             with <= 3 hyperedges (nodes are added first, so uncovered nodes are isolated nodes; singleton hyperedges
             included); the same structures for n <= 4 / <= 3 hyperedges with string labels.
+* both tiers: every ordered sequence of 2..4 components of sizes 1..4 (single hyperedge or chain of pairs), 3 filters;
 * thorough: additionally n = 5 with <= 4 hyperedges (31 931 labelled hypergraphs), and all of it once more with
             string labels.
 * degrees only, for the other containers: every DirectedHypergraph on <= 3 nodes / <= 3 hyperedges and 4 nodes /
@@ -455,6 +456,22 @@ def enum_tagged(cls, n, max_edges, min_edges=0):
             yield dict(cls=cls, weighted=False, ops=[["n", i] for i in range(n)] + [["e", e] for e in es])
 
 
+def enum_profiles():
+    for m in (2, 3, 4):
+        for sizes in itertools.product((1, 2, 3, 4), repeat=m):
+            for chain in (False, True):
+                if chain and max(sizes) < 3:
+                    continue
+                ops, edges, v = [], [], 0
+                for sz in sizes:
+                    comp = list(range(v, v + sz))
+                    v += sz
+                    ops += [["n", x] for x in comp]
+                    if sz >= 2:
+                        edges += [["e", [a, b]] for a, b in zip(comp, comp[1:])] if chain else [["e", comp]]
+                yield dict(cls="Hypergraph", weighted=False, ops=ops + edges)
+
+
 def with_readd(spec):
     """The same history with its first hyperedge added once more, members in reverse order."""
     e = next(op[1] for op in spec["ops"] if op[0] == "e")
@@ -593,6 +610,13 @@ def run(ctx):
         n += _run_jobs(ctx, total, [with_readd(s) for s in gen], F4)
     ctx.exhaustive_parts.append(f"all four classes: every history on 3 nodes with 1..2 hyperedges followed by a second "
                                 f"add_edge of the first hyperedge ({n}) x {len(F4)} filters")
+
+    # --- component-size profiles: every ordered sequence of 2..4 components of sizes 1..4 (nodes inserted in that order), each
+    # component one hyperedge or a chain of pairs: selection among several components must not depend on their order
+    specs = list(enum_profiles())
+    _run_jobs(ctx, total, specs, [None, ("order", 1), ("size", 3)])
+    ctx.exhaustive_parts.append(f"Hypergraph component profiles: every ordered sequence of 2..4 components with sizes 1..4, "
+                                f"each a single hyperedge or a chain of pairs ({len(specs)}) x 3 filters")
 
     # --- random histories
     rng = random.Random(ctx.seed * 7919 + 8)
